@@ -36,6 +36,14 @@ def body_return_locals(spec, fname):
     return 'return {%s}' % (("'__fn__': %r" % fname) + (', ' + items if items else ''))
 
 
+class T9(object):
+    """A class that is generic / has attributes only for the type checker."""
+
+
+def needs_future(spec):
+    return any(p.ann and ('T9' in p.ann or 'Missing9' in p.ann) for p in spec)
+
+
 _fn_cache = {}
 
 
@@ -45,7 +53,12 @@ def plain_function(spec, name='f', register=False, globs=None, cache=True):
     if cache and globs is None and not register and key in _fn_cache:
         return _fn_cache[key]
     src = 'def %s(%s):\n    %s\n' % (name, universe.spec_text(spec), body_return_locals(spec, name))
-    g = load(src, globs, register=register)
+    if needs_future(spec):
+        # annotations spelled with T9 / Missing9: postponed ones that cannot be evaluated
+        import __future__
+        g = load(src, dict(globs or {}, T9=T9), register=register, flags=__future__.annotations.compiler_flag)
+    else:
+        g = load(src, globs, register=register)
     fn = g[name]
     if cache and globs is None and not register:
         if len(_fn_cache) > 50000:
@@ -57,26 +70,18 @@ def plain_function(spec, name='f', register=False, globs=None, cache=True):
 _sig_cache = {}
 
 
-class T9(object):
-    """A class that is generic / has attributes only for the type checker."""
-
-
-def sig_of(spec, name='f', future=False):
+def sig_of(spec, name='f', future=None):
     """Upgraded signature of a real function with this spec, sources pointing at that
     function (through the public retrieval entry point).  future: compiled with
     `from __future__ import annotations` in globals that bind T9 (annotations such as
     T9[int], T9.only_in_stubs or Missing9 then cannot be evaluated)."""
     from sigtools import signatures
+    if future is None:
+        future = needs_future(spec)
     key = (spec, name, future)
     s = _sig_cache.get(key)
     if s is None:
         if len(_sig_cache) > 50000:
             _sig_cache.clear()
-        if future:
-            import __future__
-            src = 'def %s(%s):\n    %s\n' % (name, universe.spec_text(spec), body_return_locals(spec, name))
-            fn = load(src, {'T9': T9}, register=False, flags=__future__.annotations.compiler_flag)[name]
-        else:
-            fn = plain_function(spec, name)
-        s = _sig_cache[key] = signatures.signature(fn)
+        s = _sig_cache[key] = signatures.signature(plain_function(spec, name))
     return s
